@@ -25,13 +25,20 @@ def conc(kind, tables, p, v):
     if p in ("mbp", "mbw"):
         return v
     if p == "w2p":
-        return BAD_W2P[v] if v <= 0 else [list(map(float, a)) for a in tables["layouts"][v - 1]]
+        if v <= 0:
+            return BAD_W2P[v]
+        # the calibration arrays as lists of lists (odd ids) or as a tuple of ndarrays (even ids): same instrument
+        import numpy as np
+        lay = [list(map(float, a)) for a in tables["layouts"][v - 1]]
+        return lay if v % 2 else tuple(np.array(a) for a in lay)
     if p == "filters":
         from cherab.tools.spectroscopy import TrapezoidalFilter, PolychromatorFilter
         if v in (4, 5):
             # Instrument.tla: sets 4 and 5 are tabulated transmission curves whose wavelengths are listed downwards
             return [PolychromatorFilter([c + w / 2.0, c + w / 4.0, float(c), c - w / 4.0, c - w / 2.0], [0.0, 1.0, 1.0, 1.0, 0.0], name=f"f{c}") for c, w in tables["filtersets"][v - 1]]
         return [TrapezoidalFilter(float(c), float(w), name=f"f{c}") for c, w in tables["filtersets"][v - 1]]
+    if p == "acc" and v > 0 and v % 2 == 0:
+        return [list(x) for x in CZ[p][v]]          # accommodated spectra as a list of lists instead of a tuple of tuples
     return CZ[p][v]
 
 
